@@ -46,6 +46,9 @@ type FSObs struct {
 	KeepData bool
 	// MarkFn, when set, supplies the marker of each mutation.
 	MarkFn func() int
+	// OnMut, when set, is told about every mutation: the full data the library
+	// wanted to write, how many bytes reached the file, and whether a fault was injected.
+	OnMut func(op, rel string, off int64, data []byte, written int, injected bool)
 }
 
 // NewFSObs installs an observer for the database rooted at dir.
@@ -147,13 +150,22 @@ func (o *FSObs) hook(op, path string, off int64, data []byte) (bool, int, error)
 				pm.Data = m.Data[:partial]
 				o.Muts = append(o.Muts, pm)
 				apply(o.files, &pm, partial)
+				if o.OnMut != nil {
+					o.OnMut(op, rel, off, data, partial, true)
+				}
 				return true, partial, ErrInjected
+			}
+			if o.OnMut != nil {
+				o.OnMut(op, rel, off, data, 0, true)
 			}
 			return true, 0, ErrInjected
 		}
 	}
 	o.Muts = append(o.Muts, m)
 	apply(o.files, &m, len(m.Data))
+	if o.OnMut != nil {
+		o.OnMut(op, rel, off, data, len(data), false)
+	}
 	if op == "write" && strings.HasSuffix(rel, ".dat") {
 		o.DatWrites++
 	}
